@@ -232,7 +232,7 @@ def arith(op, a, b):
             raise Unsupported("// or % by a non-constant or non-positive divisor")
         return wrap(za / zb) if op == '//' else wrap(za % zb)
     if op == '**':
-        if isinstance(b, (int, float)) and float(b) == int(b) and 0 <= int(b) <= 4:
+        if isinstance(b, (int, float, fractions.Fraction)) and float(b) == int(b) and 0 <= int(b) <= 4:
             n = int(b)
             if n == 0:
                 return 1
@@ -256,6 +256,10 @@ def arith(op, a, b):
 
 
 def _concrete_arith(op, a, b):
+    if op == '/' and isinstance(a, (int, fractions.Fraction)) and isinstance(b, (int, fractions.Fraction)) and not isinstance(a, bool) and b != 0:
+        return fractions.Fraction(a) / fractions.Fraction(b)     # exact (A-REAL)
+    if op == '**' and isinstance(b, fractions.Fraction) and b.denominator == 1:
+        b = int(b)
     if op == '+':
         return a + b
     if op == '-':
